@@ -94,6 +94,48 @@ T = {
             "SIGWINCH or Shell.Printf from another goroutine between a command key and its argument key"),
  "C20-s2": ("C20", ["C20"], "internal/core/keys_unix.go readInputFiltered decrements cursorReq as well as GetCursorPos: every second asynchronous redisplay never gets its report",
             "two asynchronous redisplays (resize / Printf) in the Shell's lifetime while the terminal is being read"),
+
+ # second round (fresh sub-agents asked for breaks that need an unusual input, a state history over several commands or calls, a configuration, a fault, or two cooperating sites)
+ "C01-s3": ("C01", ["C01"], "internal/completion/isearch.go: the reset of IsearchRegex moved from IsearchStop to IsearchStart; the next completion menu dereferences the nil search buffer", "an incremental search started and ended earlier on the same Shell, then a completion menu with an unselected candidate"),
+ "C01-s4": ("C01", ["C01"], "internal/core/keys.go ReadKey: only io.EOF aborts the command reading its argument key; a persistent non-EOF read error spins", "an argument-reading command, then EIO (not EOF) on the terminal at that read"),
+ "C02-s3": ("C02", ["C02"], "internal/core/keys_unix.go GetCursorPos: input read without a cursor report is no longer passed through convertInput; the tail of a character cut by the 1024-byte read buffer is lost", "a paste of multi-byte text longer than the library's 1024-byte read buffer, in one write"),
+ "C02-s4": ("C02", ["C02", "C20"], "internal/core/keys.go extractCursorPos: keys read in front of an asynchronous cursor report are dropped", "Shell.Printf / a resize while the shell waits, with keys typed at that instant arriving in the same read as the answer, in front of it (needs an asynchronous redisplay: reached by C20's clean schedules, not by C02's workload)"),
+ "C03-s3": ("C03", ["C03"], "internal/keymap/dispatch.go: the remembered shorter bind is not cleared when the longer bind runs (same site as C03-s1, found independently)", "S bound and prefix of bound L; L typed in full, later any unmatched key"),
+ "C03-s4": ("C03", ["C03"], "internal/core/keys.go MatchedKeys: keys given back by the dispatcher are queued behind the waiting keys instead of in front", "a macro of two or more keys containing a bound sequence that is a prefix of a longer bind, or run while a local keymap is active"),
+ "C04-s3": ("C04", ["C04"], "internal/core/line.go DisplayLine: the erase-to-start-of-line of continuation rows runs before the move to the indent column; columns 1..indent-1 keep earlier content", "prompt of 3+ columns (or 2 with a buffer of 3+ lines), a continuation row landing on a row that showed wrapped text at the previous redisplay"),
+ "C04-s4": ("C04", ["C04"], "internal/term: GetWidth caches the width, invalidated only by SIGWINCH during a call; a resize between two calls is missed", "two Readline calls in one process with a width change between them"),
+ "C05-s3": ("C05", ["C05"], "internal/macro/engine.go RecordKeys records Caller() instead of MacroKeys(): a prefix of a multi-key sequence pending at a read boundary is recorded twice", "Emacs macro recording and replay with a read boundary inside a multi-key sequence of the recording"),
+ "C05-s4": ("C05", ["C05"], "internal/core/keys.go convertInput: the partial-character slice is reused in place; two consecutive reads ending mid-character overwrite the lead byte of the character just completed", "two adjacent multi-byte characters with different lead bytes and two consecutive reads that both end mid-character, the middle read short"),
+ "C06-s3": ("C06", ["C06"], "internal/editor/buffers.go Write/WriteTo pass the caller's slice on (same change as C06-s2, found independently)", "vi named register, Y on a non-last line of a multi-line buffer, then an appending yank"),
+ "C06-s4": ("C06", ["C06"], "internal/completion/isearch.go resetIsearchInsertMode: the saved mode is cleared before the final CheckCommand test, which never runs; Vi command mode is left with the cursor past the end", "vi command mode, ?<whole entry>RET (or / on a history line), or an incremental search with a selected match cancelled by a non-search key"),
+ "C07-s3": ("C07", ["C07"], "internal/history/sources.go Init: the per-call reset of the typed line's undo list uses the history position left by the previous call", "two calls on one Shell: text typed then a history line accepted; in the next call two or more undos"),
+ "C07-s4": ("C07", ["C07"], "internal/history/undo.go Save: the 'same text, different cursor' branch is gone; two adjacent states with the same text make one undo worth two redos", "a saving command, a cursor move, a second saving command, then 2+ undos and as many redos"),
+ "C08-s3": ("C08", ["C08"], "internal/history/sources.go Write: the duplicate test is done once against the active source, outside the per-source loop", "two bound sources whose newest entries differ, accepted line equal to one of them"),
+ "C08-s4": ("C08", ["C08"], "history.go acceptLineWith: hold/infer arguments transposed at the call site taken when AcceptMultiline returns true", "AcceptMultiline set and an accepting command other than plain accept-line"),
+ "C09-s3": ("C09", ["C09"], "internal/history/undo.go getLineHistory: the per-line state table keyed by distance from the newest entry instead of absolute index", "an entry displayed in one call, a new line accepted (appended), a later call moving to a distance visited before"),
+ "C09-s4": ("C09", ["C09"], "internal/completion/isearch.go updateIncrementalSearch: the in-progress text is only restored when nothing matches; with the search text deleted entirely the emptied line stays", "C-r on a non-empty in-progress line, a search text that finds a match, deleted again entirely, then accept"),
+ "C10-s3": ("C10", ["C10"], "internal/history/file.go openHist rewritten with bufio.Reader.ReadLine: a cut fragment longer than 4096 bytes is never dropped and every later line is decoded glued to it", "an entry above 4 KiB, a crash 4096+ bytes into its append, an append after restart, another reopen"),
+ "C10-s4": ("C10", ["C10"], "internal/history/file.go: the torn-tail check moved to load time into NewSourceFromFile only; Sources.AddFromFile builds the source by hand and loses it", "a history bound with Shell.History.AddFromFile, a torn append, a write after restart, another reopen"),
+ "C11-s3": ("C11", ["C11"], "internal/term/raw_unix.go MakeRaw remembers the last canonical state in a package variable and restores it when it finds the terminal non-canonical", "an earlier call on a canonical terminal, then a call after the application turned ICANON off"),
+ "C11-s4": ("C11", ["C11"], "readline.go / shell.go: the 'returning' guard of the deferred AcceptLine became a Shell field that is never reset; after any normal return a panicking command leaves the cursor in the input row", "same Shell: a call that returned normally, then a panic in a bound command in a later call"),
+ "C12-s3": ("C12", ["C12"], "inputrc/parse.go maxIncludeDepth 16 -> 100: a file on a cycle that includes the cycle twice is parsed 2^100 times", "a self-including file with two $include lines (or two files including each other twice)"),
+ "C12-s4": ("C12", ["C12"], "inputrc/config.go: NewConfig pre-creates the eight keymaps and Config.Bind loses its nil-map check; a bind after `set keymap <other name>` writes into a nil map", "non-strict parse, set keymap with a name outside the eight, then a bind"),
+ "C13-s3": ("C13", ["C13"], "inputrc/parse.go $include: the sub-parser is a copy of the parser sharing the conds backing array; the included file's $if/$else overwrite the enclosing conditions", "$include inside an $if block, the included file with its own $if, more directives after the $include in the same block"),
+ "C13-s4": ("C13", ["C13"], "internal/keymap/config.go ReloadConfig: `append(opts, defaults...)`: the default mode emacs and $TERM override the application's WithMode / WithTerm", "NewShell with WithMode(vi) or WithTerm(t != $TERM) and a file with $if mode= / term= blocks"),
+ "C14-s3": ("C14", ["C14"], "internal/completion/insert.go insertCandidate: the completed line shares the real line's array and the prefix cut is skipped for an empty prefix; Line.Insert then writes over the text after the cursor", "empty word being completed with text after the cursor, 2+ candidates, then a second menu move or C-c"),
+ "C14-s4": ("C14", ["C14"], "internal/completion: ResetForce computes revertLine before leaving the menu, IsearchStop no longer resets the search's start buffer: C-c in a menu restores the buffer of an earlier history search", "an incremental history search earlier on the same Shell, then a completion menu and C-c"),
+ "C15-s3": ("C15", ["C15"], "internal/completion/group.go initCompletionAliased maxY = len(grid) (same change as C15-s1, found independently)", "an aliased group whose aliases wrap"),
+ "C15-s4": ("C15", ["C15"], "internal/completion/engine.go Select no longer enters the menu keymap; with autocomplete on the first Tab is the only path that relied on it", "set autocomplete on and a non-empty line at the first completion key"),
+ "C16-s3": ("C16", ["C16"], "internal/display/engine.go displayLine: the matching-bracket highlight is reset before being set, so it survives the redisplay; Selection.Cut then deletes the matching bracket and returns nothing", "set blink-matching-paren on, cursor on a bracket with a partner, a kill through Selection.Cut"),
+ "C16-s4": ("C16", ["C16"], "emacs.go killLine rewritten in the pending-selection style loses the final cursor reset", "kill-line inside a non-last line of a multi-line buffer, then yank"),
+ "C17-s3": ("C17", ["C17"], "same change as C16-s3 (matching-bracket highlight left in the selection): delete cuts the partner bracket, yank copies the motion's text", "set blink-matching-paren on, operator from a bracket or a visual motion ending on one"),
+ "C17-s4": ("C17", ["C17"], "internal/keymap/pending.go RunPending: a guard stops a cancelled operator from being popped; the next use of the same operator is taken for its doubled form (yy / dd)", "y or d started and cancelled with Escape earlier on the same Shell, then the same operator again"),
+ "C18-s3": ("C18", ["C18"], "history.go acceptLineWith: StopRecord moved above the AcceptMultiline test; a Return refused by AcceptMultiline ends the recording", "AcceptMultiline set and K containing Return on a refused line with keys after it"),
+ "C18-s4": ("C18", ["C18"], "internal/macro/engine.go StopRecord: empty-recording guard moved first (same change as C18-s2, found independently)", "an empty recording, then keys, then a record-and-replay on the same Shell"),
+ "C19-s3": ("C19", ["C19"], "inputrc/inputrc.go escape: octal codes written without leading zeros; C-\\ followed by a digit reads back as another character", "a sequence or macro with 0x1c immediately followed by a digit 0-7"),
+ "C19-s4": ("C19", ["C19"], "emacs.go dumpMacros prints its line as a Printf format (same idea as C19-s2)", "a macro whose key sequence or body contains '%'"),
+ "C20-s3": ("C20", ["C20"], "internal/core/keys_unix.go GetCursorPos snapshots only k.waiting under the lock; k.reading is forgotten (same break as C20-s1 dressed as a race clean-up)", "a resize / Printf between a key-reading command and its argument key"),
+ "C20-s4": ("C20", ["C20"], "internal/core/keys.go extractCursorPos cuts the reports out of the input in place; keys following a report in the same read overwrite the report handed to the requester", "a resize / Printf while the shell waits, the answer followed by typed keys in the same read"),
  # own mutants
  "m-C01b": ("C01", ["C01"], "internal/core/keys.go ReadKey: a read error only aborts the command when bytes were read with it (`err != nil && len(buf) > 0`): the loop spins on a failing terminal", 'an argument-reading command, then EOF/EIO at its argument read'),
  "m-C02": ("C02", ["C02"], "emacs.go selfInsert: a non-ASCII character is dropped when the buffer length is 15 mod 16", 'a non-ASCII character typed at buffer length 15, 31, ...'),
